@@ -72,7 +72,7 @@ impl SourceSpan {
     pub fn join2(start: &dyn Located, end: &dyn Located) -> Self {
         Self {
             start: start.span().start,
-            end: end.span().start,
+            end: end.span().end,
             file_id: start.span().file_id.clone(),
         }
     }
